@@ -81,10 +81,39 @@ func shrinkBytes(c core.Case) []core.Case {
 }
 
 // token kinds for shrinking: the simplest representative of each kind
-var simplest = map[string]string{
-	"b": "a", "5": "a", "-5": "5", "1.5": "5", `"q r"`: "a", "w*": "a", "*": "a", "/r/": "a",
-	"=": ":", "<": ">", "{": "[", "}": "]", "OR": "AND", "-": "+", "^": "~", "2": "a", "1": "a", "3": "a",
-	"v": "a", "f": "a", "g": "a", "x": "a", "y": "a", "D": "a",
+// simpler lists, for one token, the simpler tokens of its kind to try (in order).
+func simpler(t string) []string {
+	switch t {
+	case "a":
+		return nil
+	case "5":
+		return []string{"a"}
+	case "-5", "1.5", "1", "2", "3", "0":
+		return []string{"a", "5"}
+	case "b", `"q r"`, "w*", "*", "/r/", "v", "f", "g", "x", "y", "D":
+		return []string{"a"}
+	case "=":
+		return []string{":"}
+	case "<":
+		return []string{">"}
+	case "{":
+		return []string{"["}
+	case "}":
+		return []string{"]"}
+	case "OR":
+		return []string{"AND"}
+	case "-":
+		return []string{"+"}
+	case "^":
+		return []string{"~"}
+	}
+	if isTermTok(t) && t != "!" {
+		if intRe.MatchString(t) || floatRe.MatchString(t) {
+			return []string{"a", "5"}
+		}
+		return []string{"a"}
+	}
+	return nil
 }
 
 // splitTokens splits a single-space-joined token text; a double-quoted phrase is one token.
@@ -178,7 +207,7 @@ func shrinkTokensField(c core.Case, get func(core.Case) string, set func(*core.C
 		}
 	}
 	for i := 0; i < n; i++ {
-		if s, ok := simplest[toks[i]]; ok {
+		for _, s := range simpler(toks[i]) {
 			t := append([]string{}, toks...)
 			t[i] = s
 			emit(t)
